@@ -227,8 +227,10 @@ def oracle_assignment(case):
     return anchors, out
 
 
-def equivalences_of(M):
-    """target atom index -> anchor index, from the public `equivalences`."""
+def equivalences_of(M, edit="clear"):
+    """target atom index -> anchor index, from the public `equivalences`.  The returned dictionary is then edited
+    the way a caller may edit what a property hands out: its lists emptied (edit="clear") or put in another order
+    (edit="reverse") in place."""
     eq = M.equivalences
     inv = {}
     for anchor, tlist in eq.items():
@@ -239,7 +241,11 @@ def equivalences_of(M):
     try:
         for tlist in eq.values():
             if isinstance(tlist, list):
-                del tlist[:]
+                if edit == "reverse":
+                    tlist.reverse()
+                    tlist.append(tlist[0] if tlist else 0)
+                else:
+                    del tlist[:]
         eq.clear()
     except (TypeError, AttributeError):
         pass
